@@ -246,3 +246,12 @@ def run(ck):
     # ---- clause 5: shared necessary conditions of a ping-backed, loop-dispatched source -------------------------
     common.ping_infra(ck, "5")
     common.dispatch_infra(ck, "5")
+    # ---- shared clauses demonstrated by seeding round 7 (the property broken from a distant module) --------------
+    from props import common as _c7
+    import importlib as _il
+    _m = lambda n: _il.import_module('props.' + n)
+    _c7.import_results(ck, _m("C05"), "1", "Poll::poll", "5")
+    _c7.import_results(ck, _m("C02"), "2", "Poll::poll", "5")
+    _c7.import_results(ck, _m("C01"), "4", None, "5")  # slot generations: a stale token never aliases the channel
+    _m("C01").token_factory_rules(ck, "5")  # sub-tokens of a composite of channels stay distinct across re-registration
+
